@@ -345,3 +345,9 @@ def r_sib_r_c15_10(ctx):
 def r_sib_r_c15_11(ctx):
     from .c05 import r3 as close_status_table
     close_status_table(ctx)
+
+
+@rule("R-C15-12", min_instances=3, title="WebSocketApp.close() records the stop request (keep_running = False) before it starts the closing handshake: a loss the loop thread sees while close() waits for the peer is not taken for a connection to re-establish")
+def r_sib_r_c15_12(ctx):
+    from .c14 import r6 as close_order_and_resources
+    close_order_and_resources(ctx)
